@@ -390,7 +390,7 @@ class Schema(dict, metaclass=LogicalMeta):
                 )
             super().__delitem__(field.name)
 
-        if field.name in self.__dict__:
+        if field.attname in self.__dict__:
             self.__dict__.pop(field.attname)
 
     def __delitem__(self, key: str):
@@ -435,6 +435,9 @@ class Schema(dict, metaclass=LogicalMeta):
                 f"{self.__name__}: Attempt to delete required schema key: {repr(key)}"
             )
         args = () if unprovided(default) else (default,)
+        if field.name in self:
+            # the attribute copy must not outlive the key
+            self.__dict__.pop(field.attname, None)
         return super().pop(field.name, *args)
 
     def update(self, __m=None, **kwargs):
@@ -499,6 +502,8 @@ class Schema(dict, metaclass=LogicalMeta):
                 raise exc.DeleteError(
                     f"{self.__name__}: Attempt to delete required schema key: {repr(key)}"
                 )
+        for key, field in self.__parser__.fields.items():
+            self.__dict__.pop(field.attname, None)
         return super().clear()
 
 
